@@ -10,6 +10,8 @@ import RdfModel.Props.C13Defs
 namespace RdfModel.C02
 open RdfModel RdfModel.Ttl RdfModel.TtlEnc RdfModel.Desc
 
+instance (s : List Nat) : Decidable (Scalars s) := by unfold Scalars; exact inferInstance
+
 /-! ### Tables (T1) -/
 
 /-- Table facts used at document level in addition to `TablesOK` (proved for the regenerated tables
@@ -86,6 +88,8 @@ structure ConfigOK (isSpace : Nat → Bool) (T : Tables) (cfg : Config) (pm : Pr
   labels : ∀ m ∈ pm.ordered, labelSafe isSpace T m.pfx = true
   ns : ∀ m ∈ pm.ordered, iriOK m.expanded = true ∧ stableUnder cfg.base m.expanded = true
   base : ∀ b, cfg.base = some b → baseOK b
+  /-- no prefix list, no mappings (`NewPrefixManager(nil)` is empty) -/
+  empty : cfg.prefixes = [] → pm.ordered = []
 
 /-- a blank-node labeller the decoder can read back: injective, labels are BLANK_NODE_LABELs -/
 structure LabelOK {β : Type} (T : Tables) (label : β → List Nat) : Prop where
